@@ -94,6 +94,25 @@ fn shared_receive_repoll_then_woken_through_latest_waker() {
     core::mem::forget((s, r));
 }
 
+/// C01 for the shared flavour: a waiting shared receive future that is dropped is no longer in the channel's wait queue
+/// (its Drop forwards to the channel), and the later send / close wakes nobody
+#[kani::proof]
+fn shared_receive_future_dropped_while_waiting_leaves_the_queue() {
+    use core::future::Future;
+    let (s, r) = generic_oneshot_broadcast_channel::<NoopLock, u8>();
+    let w0 = kit::waker(0);
+    let mut cx0 = core::task::Context::from_waker(&w0);
+    let mut f = core::mem::ManuallyDrop::new(r.receive());
+    let p = unsafe { core::pin::Pin::new_unchecked(&mut *f) }.poll(&mut cx0);
+    assert!(p.is_pending());
+    assert!(!s.inner.channel.inner.lock().waiters.is_empty(), "[C01] a pending shared receive future is queued");
+    unsafe { core::mem::ManuallyDrop::drop(&mut f) };
+    assert!(s.inner.channel.inner.lock().waiters.is_empty(), "[C01] a dropped shared receive future is no longer in the wait queue");
+    let _ = s.inner.channel.close();
+    assert!(kit::total_wakes() == 0, "[C01] nothing of a dropped future is touched or woken afterwards");
+    core::mem::forget((s, r));
+}
+
 /// the shared (Arc) receive future: Pending keeps its handle, EVERY Ready (value or None) gives it up
 #[kani::proof]
 fn shared_receive_future_protocol() {
